@@ -133,12 +133,19 @@ class ProgGen:
             elif k == 'data':
                 w = rng.choice([1, 1, 2, 2, 4, 8])
                 cnt = rng.randint(1, 4)
-                emit(['data', w, [None] * cnt], w * cnt)
+                if w in (2, 4) and rng.random() < 0.12:
+                    # a quoted string under a wide data directive: one value of that width per character
+                    txt = ''.join(rng.choice('ABCxyz019 _') for _ in range(cnt))
+                    emit(['data', w, [num(ord(c)) for c in txt], {'as_string': txt, 'quote': rng.choice(['"', "'"])}], w * cnt)
+                else:
+                    emit(['data', w, [None] * cnt], w * cnt)
             elif k == 'string':
                 st, size = self.gen_string()
                 emit(st, size)
             elif k == 'fill':
                 cnt = rng.choice([0, 1, 2, 3, 5, 8, 17])
+                if rng.random() < self.prof.get('p_bigfill', 0):
+                    cnt = rng.choice([16, 32, 48, 64, 33])        # whole rows of the compact hex format
                 if rng.random() < 0.5:
                     emit(['fill', num(cnt) if rng.random() < 0.8 else ('bin', '+', num(cnt), ('num', '0')), None], cnt)
                 else:
@@ -369,6 +376,8 @@ class ProgGen:
                     st[2] = [num(rng.choice([0, 1, 0xabc, 0xfff, 0x800, -1, -2048]))]
                 elif mn == 'pick':
                     st[2] = [num(rng.choice([1, 2, 5, 12]))]
+            elif k == 'data' and len(st) > 3:
+                pass            # a quoted string under a wide data directive: its character codes are the values
             elif k == 'data':
                 st[2] = [rng.choice([self.expr(ctx), self.expr(ctx),
                                      num(rng.choice([-1, -128, -32769, 255, 256, 65535, 65536, 2**32, 2**64 - 1, 2**64 + 5, -2**63]))])
